@@ -484,6 +484,13 @@ const PLAIN_TAGS: &[&str] = &["a", "b", "slow", "wip", "ab", "disallow.skipped",
 /// Retry delays, in microseconds (one of them below a millisecond, one of them zero: no wait, but still a retry setting).
 pub const DELAYS_US: &[u64] = &[0, 900, 2_000, 5_000, 12_000];
 
+/// A delay for a tag or an option: one of the fixed ones, or - a quarter of the time - some number of
+/// microseconds (1-80) in the range of the runner's own bookkeeping between re-queueing a retry and looking at
+/// the queue again (a deadline that expires while the runner is looking).
+pub fn pick_delay(r: &mut Rng) -> u64 {
+    if r.chance(1, 4) { r.range(1, 80) as u64 } else { *r.pick(DELAYS_US) }
+}
+
 /// A delay as written in a tag.
 pub fn delay_text(us: u64) -> String {
     if us % 1000 == 0 { format!("{}ms", us / 1000) } else { format!("{us}us") }
@@ -588,7 +595,7 @@ impl Gen<'_> {
         if pct(&mut self.r, pr) {
             let n = if self.r.chance(1, 8) { 0 } else { self.r.range(1, 3) };
             let with_delay = pct(&mut self.r, self.p.p_delay);
-            let d = delay_text(*self.r.pick(DELAYS_US));
+            let d = delay_text(pick_delay(&mut self.r));
             t.push(match (self.r.below(2), with_delay) {
                 (0, false) => "retry".to_owned(),
                 (_, false) => format!("retry({n})"),
@@ -729,11 +736,11 @@ pub fn generate(profile: &Profile, seed: u64, index: u64) -> CaseSpec {
     }
     if pct(&mut r, profile.p_delay) {
         match r.below(3) {
-            0 => cfg.cli_retry_after_us = Some(*r.pick(DELAYS_US)),
-            1 => cfg.b_retry_after_us = Some(*r.pick(DELAYS_US)),
+            0 => cfg.cli_retry_after_us = Some(pick_delay(&mut r)),
+            1 => cfg.b_retry_after_us = Some(pick_delay(&mut r)),
             _ => {
-                cfg.cli_retry_after_us = Some(*r.pick(DELAYS_US));
-                cfg.b_retry_after_us = Some(*r.pick(DELAYS_US));
+                cfg.cli_retry_after_us = Some(pick_delay(&mut r));
+                cfg.b_retry_after_us = Some(pick_delay(&mut r));
             }
         }
     }
